@@ -48,19 +48,111 @@ theorem gotCode_stashed (C : Crypto) (cfg : Cfg) (code : String) (m key : Bytes)
       = ({ stKey C cfg code key with stash := some (pakeBody m) }, none) := by
   simp [stKey, stCode, h, myPake]
 
-/-- PAKE element that the library refuses: the exception leaves the same partial state on both paths -/
-theorem rxPake_stCode_fail (C : Crypto) (cfg : Cfg) (code peer : String) (m : Bytes)
+/-! ## a hostile PAKE message: unusable body, or an element the library refuses -/
+
+/-- state after the code and a hostile PAKE message; `skst` = `S3_scared` (unusable body, via
+    `got_pake_bad`) or `S2_know_key` (element refused inside `compute_key`) -/
+def stHostile (C : Crypto) (cfg : Cfg) (code : String) (skst : SortedKey.State) : St :=
+  { stCode C cfg code with
+    k := .S11, sk := skst, o := .S1_yes_pake, b := .S3_closing, result := .wrongPassword,
+    out := [.wCode code, .mAdd "pake" (myPake C cfg code), .tClose "scary"] }
+
+theorem rxPake_stCode_refused (C : Crypto) (cfg : Cfg) (code peer : String) (m : Bytes)
     (h : C.pakeFinish (toBytes C code) (toBytes C cfg.appid) cfg.rnd m = none) :
     orderGotMessage C cfg ⟨peer, "pake", pakeBody m⟩ (stCode C cfg code)
-      = ({ stCode C cfg code with k := .S11, sk := .S2_know_key, o := .S1_yes_pake }, some .pakeError) := by
-  simp [stCode, h, myPake]
+      = (stHostile C cfg code .S2_know_key, none) := by
+  simp [stCode, stHostile, h, myPake]
 
-theorem gotCode_stashed_fail (C : Crypto) (cfg : Cfg) (code : String) (m : Bytes)
+theorem gotCode_stashed_refused (C : Crypto) (cfg : Cfg) (code : String) (m : Bytes)
     (h : C.pakeFinish (toBytes C code) (toBytes C cfg.appid) cfg.rnd m = none) :
     gotCode C cfg code { init with k := .S01, stash := some (pakeBody m), o := .S1_yes_pake }
-      = ({ stCode C cfg code with k := .S11, sk := .S2_know_key, o := .S1_yes_pake, stash := some (pakeBody m) },
-         some .pakeError) := by
-  simp [stCode, h, myPake]
+      = ({ stHostile C cfg code .S2_know_key with stash := some (pakeBody m) }, none) := by
+  simp [stCode, stHostile, h, myPake]
+
+theorem rxPake_stCode_unusable (C : Crypto) (cfg : Cfg) (code peer : String) (body : Bytes)
+    (h : parsePake body = none) :
+    orderGotMessage C cfg ⟨peer, "pake", body⟩ (stCode C cfg code)
+      = (stHostile C cfg code .S3_scared, none) := by
+  simp [stCode, stHostile, h, myPake, -parsePake]
+
+theorem gotCode_stashed_unusable (C : Crypto) (cfg : Cfg) (code : String) (body : Bytes)
+    (h : parsePake body = none) :
+    gotCode C cfg code { init with k := .S01, stash := some body, o := .S1_yes_pake }
+      = ({ stHostile C cfg code .S3_scared with stash := some body }, none) := by
+  simp [stCode, stHostile, h, myPake, -parsePake]
+
+/-- no key was ever computed and the side is closing with WrongPasswordError -/
+structure Refused (s : St) : Prop where
+  rkey : s.rkey = none
+  wkey : s.wkey = none
+  r : s.r = .S0_unknown_key ∨ s.r = .S3_scared
+  b : s.b = .S3_closing
+  res : s.result = .wrongPassword
+  quiet : ∀ e ∈ s.out, e.delivers = false
+  noKey : ∀ k, Ev.wKey k ∉ s.out
+  hasScary : Ev.tClose "scary" ∈ s.out
+  scary : ∀ mood, Ev.tClose mood ∈ s.out → mood = "scary"
+  noClosed : ∀ v, Ev.wClosed v ∉ s.out
+
+theorem stHostile_refused (C : Crypto) (cfg : Cfg) (code : String) (skst : SortedKey.State) (x : Option Bytes) :
+    Refused { stHostile C cfg code skst with stash := x } := by
+  constructor <;> simp [stHostile, stCode, Ev.delivers]
+
+/-- any later message (whatever its body) reaches a Receive without key: judged undecryptable,
+    Receive scared, Boss (already closing) ignores it -/
+theorem receive_refused (C : Crypto) (cfg : Cfg) (m : Msg) (s : St) (hs : Refused s) :
+    receiveGotMessage C cfg m s = ({ s with r := .S3_scared }, none) ∧ Refused { s with r := .S3_scared } := by
+  have hk := hs.rkey
+  have hb := hs.b
+  refine ⟨?_, ⟨hs.rkey, hs.wkey, Or.inr rfl, hs.b, hs.res, hs.quiet, hs.noKey, hs.hasScary, hs.scary, hs.noClosed⟩⟩
+  rcases hs.r with hr | hr
+  · simp [receiveGotMessage, hk, hr, hb]
+  · simp [receiveGotMessage, hk, hr]
+
+def Env.later : Env → Prop
+  | .rx m => m.phase ≠ "pake"
+  | .send _ => True
+  | _ => False
+
+theorem env_step_refused (C : Crypto) (cfg : Cfg) (e : Env) (s : St) (hs : Refused s)
+    (ho : s.o = .S1_yes_pake) (he : e.later) :
+    ∃ s', envStep C cfg e s = (s', none) ∧ Refused s' ∧ s'.o = .S1_yes_pake := by
+  cases e with
+  | rx m =>
+    have hp : m.phase ≠ "pake" := he
+    obtain ⟨e1, r1⟩ := receive_refused C cfg m s hs
+    refine ⟨{ s with r := .S3_scared }, ?_, r1, ho⟩
+    have hs' : { s with o := Order.State.S1_yes_pake } = s := by cases s; simp_all
+    simp [envStep, orderGotMessage, hp, ho, Order.table, seqM, orderOut, hs', e1]
+  | send pt =>
+    refine ⟨s, ?_, hs, ho⟩
+    have hb := hs.b
+    simp [envStep, hb]
+    cases s; simp_all
+  | code c => exact absurd he (by simp [Env.later])
+  | close => exact absurd he (by simp [Env.later])
+  | closed => exact absurd he (by simp [Env.later])
+
+theorem run_refused (C : Crypto) (cfg : Cfg) (evs : List Env) :
+    ∀ (s : St), Refused s → s.o = .S1_yes_pake → (∀ e ∈ evs, e.later) →
+    ∃ s', run C cfg evs s = (s', none) ∧ Refused s' := by
+  induction evs with
+  | nil => intro s hs _ _; exact ⟨s, rfl, hs⟩
+  | cons e rest ih =>
+    intro s hs ho hall
+    obtain ⟨s1, e1, r1, o1⟩ := env_step_refused C cfg e s hs ho (hall e (by simp))
+    obtain ⟨s2, e2, r2⟩ := ih s1 r1 o1 (fun x hx => hall x (by simp [hx]))
+    refine ⟨s2, ?_, r2⟩
+    simp only [run, seqM] at e2 ⊢
+    rw [e1]; exact e2
+
+theorem refused_closed (C : Crypto) (cfg : Cfg) (s : St) (hs : Refused s) :
+    (run C cfg [.closed] s).2 = none ∧ (run C cfg [.closed] s).1.out = s.out ++ [.wClosed .wrongPassword] ∧
+    (run C cfg [.close, .closed] s).2 = none ∧
+    (run C cfg [.close, .closed] s).1.out = s.out ++ [.wClosed .wrongPassword] := by
+  have hb := hs.b
+  have hr := hs.res
+  simp [hb, hr]
 
 /-! ## the Receive × Boss invariant under undecryptable messages -/
 
